@@ -9,6 +9,27 @@ TRUST = ("rustc nightly (type checker, MIR builder) as the source of the resolve
          "behave as documented; the rule kit's closed idiom tables (anything outside them is reported, never assumed)")
 
 CHECKS = {
+    "C01": dict(technique="type-checked prelude witness crate + helper byte identity + provenance normal-form agreement (definition/use spelling) + loop-dependence of item names on the extracted output grammar",
+                text="The fixed part of every output (compiler-evaluated HEADER + helper text) is type-checked by rustc against exactly the six "
+                     "documented crates; the emitted helper is byte-identical to the analysed helper module; every reference class (type, module, "
+                     "envelope names) is spelled with the same sanitiser chain as its definition; every item emitted under loops has a name "
+                     "depending on each loop element. Whole-output compilation for every schema is not claimed.", ref="5.C01"),
+    "C02": dict(technique="table extraction from typed HIR + finite-domain evaluation of occurrence flags (exhaustive truth table) + loop/dispatch shape rules",
+                text="The 27-row builtin table is extracted and compared; the occurrence flags and the Vec/Option/bare selection are evaluated "
+                     "over the complete finite partition induced by the literals the code compares with (15k rows) against the schema oracle; "
+                     "flattening loops have no early exit; dispatch sets and the two partitioning emission loops are checked.", ref="5.C02"),
+    "C03": dict(technique="output-grammar parsing of every #[yaserde(..)] template with provenance of each value; prefix coverage",
+                text="Per-field and per-struct (prefix, rename, attribute, namespaces) annotations, their provenance in the model, that each "
+                     "namespaces entry takes prefix and URI from one Namespace value, and that every prefix members can carry is declared by the "
+                     "struct. What yaserde does with the annotations is not decided.", ref="5.C03"),
+    "C04": dict(technique="width table over the extracted builtin mapping + repeatable=>Vec rows of the finite-domain truth table + prefix coverage",
+                text="Necessary conditions of lossless deserialization that are visible in the code's shape: bounded builtins fit their Rust "
+                     "carrier, repeatable members are Vec, member prefixes are declared, simple types carry their text. The round trip itself "
+                     "runs in yaserde and is not decided; unbounded integers/decimal are outside the width claim.", ref="5.C04"),
+    "C05": dict(technique="output-grammar rules on envelope/method templates + typed-HIR provenance of the WSDL resolution chain",
+                text="Envelope shape, Body/Header member provenance (element name, namespace, PascalCase struct), same unfiltered operation "
+                     "collection in both emitters, one snake_case method per operation, literal method body forwarding to the checked helper, "
+                     "keyed part/message lookups.", ref="5.C05"),
     "C06": dict(technique="MIR path enumeration with atom classification (finite orderings) vs. XSD facet oracle",
                 text="All acyclic CFG paths of every `impl CheckRestrictions` in the emitted helper are enumerated; each branch "
                      "condition must classify into a closed set of atoms (facet present, value/len ordered against bound, membership, "
@@ -20,6 +41,16 @@ CHECKS = {
                      "member templates and check templates over the same collections in the extracted output grammar; the facet table "
                      "(XSD name -> model field -> emitted field) is compared row by row; numeric facet holes must be integer-typed.",
                 ref="5.C07"),
+    "C08": dict(technique="MIR reachability/ordering of the base-field copy vs. own-member appends; constructor summaries",
+                text="The base struct's field list is copied once, never after own members are appended, as whole Field values; extension "
+                     "dispatch and base lookup are shared with C02/C09.", ref="5.C08"),
+    "C09": dict(technique="finite-domain evaluation of the QName split + MIR use analysis of the namespace parameter of every by-name selection",
+                text="QName split table; prefix table construction; every component selection must read the reference's namespace and the "
+                     "component kind; imports may not rebind prefixes. Which component is chosen on given data is not decided - only whether "
+                     "the selection can depend on namespace/kind.", ref="5.C09"),
+    "C10": dict(technique="MIR dominance (uniqueness post-condition) + constructor summaries of Namespace + merge shape",
+                text="Every returned abbreviation was tested unused in the registry of all namespaces; Namespaces are allocated once per URI "
+                     "with module name from the same abbreviation; registry merges must reconcile by URI.", ref="5.C10"),
     "C11": dict(technique="call-graph SCC + MIR dominance (mark before descent), keyed-access who-may-call rule",
                 text="The import recursion is the SCC containing the parsing function; the processed-flag store must dominate every "
                      "intra-SCC call and a flag test must precede parsing; Files.map may only be accessed by key.",
@@ -28,6 +59,15 @@ CHECKS = {
                 text="Type-resolved inventory of every iterator creation over std hash containers and of ambient-input calls in all "
                      "non-test bodies; processed flags must be reset on entry of the public reader before any load.",
                 ref="5.C12"),
+    "C13": dict(technique="MIR panic-family inventory with guard recognition and positive controls + recursion edge classification by data slices + loop shapes",
+                text="No panic-family call or Assert terminator in non-test library code unless guarded; every call-graph cycle is classified "
+                     "edge by edge (strict descent / same node / restart / guarded) from the backward slice of the XML-node argument; every CFG "
+                     "cycle has a recognised terminating shape. Time bounds and dependency panics are not decided.", ref="5.C13"),
+    "C14": dict(technique="lexical-context taint analysis over the output grammar (Rust lexer on templates) + keyword table exhaustiveness",
+                text="Every hole that is not chosen among the generator's own literals is classified by the lexical context of its template "
+                     "position and must carry a sanitiser adequate for it (Debug escaping in string literals, case normaliser + keyword table + "
+                     "identifier guard in identifier positions, integer type in numeric positions, both line terminators split in comments); "
+                     "the keyword table is evaluated on all 51 strict/reserved keywords.", ref="5.C14"),
     "C15": dict(technique="MIR result-flow classification of every sink write and writer call; zero-count Write::write",
                 text="Every write_fmt/write_all/flush call and every call of a (transitively) writing function in all bodies, closures "
                      "included, has the consumer of its Result classified; only `?`/return are accepted.",
@@ -36,6 +76,17 @@ CHECKS = {
                 text="One post/send outside cycles, basic_auth exactly on the Some arm with ordered operands, a propagated "
                      "error_for_status dominating every Ok, Ok payload provenance from from_str(text().await?).",
                 ref="5.C16"),
+    "C17": dict(technique="MIR effect-ordering dominance in main + result-flow + def-use provenance of path and bytes + empty-parent guard",
+                text="Every file-system effect on the output is dominated by the success of reading, read_xml and write_xml into memory; every "
+                     "Result in main ends in expect/unwrap/?; output path and bytes are traced to their sources.", ref="5.C17"),
+    "C18": dict(level="proof", technique="type-level witnesses (generic Send bounds) type-checked by rustc on the assembled prelude + closed member-type universe",
+                text="Generic witness functions quantify over every request/response type and are discharged by the Rust type checker on a "
+                     "crate assembled from the current helper; struct member types are closed over owned Send+Sync data by a rule on the "
+                     "output grammar.", ref="5.C18",
+                note="rustc's type checker and auto-trait rules; the six dependency crates as pinned; C01.R2 and C05.R5 (generated methods only forward to the helper)"),
+    "C19": dict(technique="trait-method coverage from the compiler's associated-item tables + MIR forwarding-shape rule",
+                text="Every trait method that a default body could supply is overridden for MultiRef<T>; each override is one call of the "
+                     "same method on self.inner with unchanged parameters whose result is returned; clone is Arc::clone.", ref="5.C19"),
 }
 
 NA_REASON = "check under construction in this session (engines exist; rules not yet written); see DESIGN.md section 5"
